@@ -13,7 +13,12 @@ def permuted_walk(seed):
     real_walk = os.walk
 
     def perm(lst, salt):
-        # deterministic permutation derived from (seed, salt) without the random module
+        # seed -1: ascending, seed -2: descending; otherwise a deterministic permutation derived
+        # from (seed, salt) without the random module
+        if seed == -1:
+            return sorted(lst)
+        if seed == -2:
+            return sorted(lst, reverse=True)
         import hashlib
         return sorted(lst, key=lambda x: hashlib.blake2b(f"{seed}:{salt}:{x}".encode()).digest())
 
